@@ -493,6 +493,7 @@ harnesses! {
     insert_n2_sym [4] => h_insert(2, tab_of(6), 40); //@ t=C01,C02,C03,C04,C10 to=2400 solver=portfolio
     insert_n3_collide_k1 [5] => h_insert_k(3, tab_of(0), 40, 1); //@ q=C04 t=C01,C03,C07 to=1200
     insert_n3_distinct_k3 [5] => h_insert_k(3, tab_of(14), 40, 3); //@ t=C04,C01,C03 to=1200
+    insert_n3_seedtab_k1 [5] => h_insert_k(3, tab_of(SEED_TAB), 40, 1); //@ q=C04 t=C01,C03 to=1200
     insert_n1_full [3] => h_insert(1, tab_of(6), 64); //@ q=C01,C02,C03,C10 to=600
     insert_n0_full [3] => h_insert(0, tab_of(6), 64); //@ q=C01,C02,C10 to=600
     insert_n2_full_k0 [4] => h_insert_k(2, tab_of(6), 64, 0); //@ t=C01,C02,C03,C10 to=1800
@@ -522,6 +523,8 @@ harnesses! {
     remove_n4_mixed [6] => h_remove(4, tab_of(6), 40, 0); //@ t=C02,C04,C05,C06 to=900
     get_n3_mixed [5] => h_access(3, tab_of(6), 0); //@ q=C04,C05,C07,C20 t=C01,C02 to=600
     get_n3_collide [5] => h_access(3, tab_of(0), 0); //@ q=C04 t=C05,C07 to=600
+    get_n3_seedtab [5] => h_access(3, tab_of(SEED_TAB), 0); //@ q=C04 t=C05 to=600
+    remove_n3_seedtab [5] => h_remove(3, tab_of(SEED_TAB), 40, 0); //@ q=C04 t=C02 to=600
     get_entry_n3_mixed [5] => h_access(3, tab_of(6), 1); //@ q=C04,C05,C20 t=C07 to=600
     get_lru_n3_mixed [5] => h_access(3, tab_of(6), 2); //@ q=C04,C05,C20 t=C07 to=600
     touch_n3_mixed [5] => h_access(3, tab_of(6), 3); //@ q=C05,C07,C20 t=C04 to=600
